@@ -69,6 +69,7 @@ type DirTrace struct {
 	MidGateAfter int
 	ReadBack     bool
 	violations   []string
+	OS           *OSHook
 }
 
 func NewDirTrace(s *Sim, path string) *DirTrace {
@@ -302,14 +303,14 @@ func (d *RecDir) Persist(kind string, id uint64, w index.WriterTo, closeCh chan 
 	case "item-fail-end":
 		op.Inject, failAt = f, 1<<30
 	default:
-		op.Inject = f // os-level faults are armed by the os hook, keyed by op index
-		armOSFault(d.t, f)
+		op.Inject = f // os-level faults are armed on the os hook for the duration of this operation
+		d.t.armOS(f, fileName(kind, id))
 	}
 	if snap, ok := w.(*index.Snapshot); ok && kind == index.ItemKindSnapshot {
 		op.SnapInfo = snap.VerifSegmentInfos()
 	}
 	err := d.inner.Persist(kind, id, &recWriterTo{inner: w, t: d.t, op: op, failAt: failAt}, closeCh)
-	disarmOSFault(d.t)
+	d.t.disarmOS()
 	op.Err = errStr(err)
 	if d.t.ReadBack {
 		op.Data, _ = d.t.readFile(kind, id)
@@ -413,4 +414,33 @@ func (p *gatedPolicy) Cleanup(dir index.Directory) error {
 	sort.Strings(names)
 	p.t.sim.Rec("cleanup", fmt.Sprintf("%v", names), nil)
 	return err
+}
+
+// os-level faults ("os:<op>:<errno>[@k]") for the duration of one Persist.
+func (t *DirTrace) armOS(f, name string) {
+	if t.OS == nil || len(f) < 4 || f[:3] != "os:" {
+		return
+	}
+	spec := f[3:]
+	op, en, after := spec, "EIO", 0
+	for i := 0; i < len(spec); i++ {
+		if spec[i] == ':' {
+			op, en = spec[:i], spec[i+1:]
+			break
+		}
+	}
+	for i := 0; i < len(en); i++ {
+		if en[i] == '@' {
+			fmt.Sscanf(en[i+1:], "%d", &after)
+			en = en[:i]
+			break
+		}
+	}
+	t.OS.Arm(&OSFault{Op: op, Suffix: name, After: after, Errno: errnoOf(en)})
+}
+
+func (t *DirTrace) disarmOS() {
+	if t.OS != nil {
+		t.OS.Disarm()
+	}
 }
